@@ -293,6 +293,7 @@ struct any_op final : rcv_iface {
       inner = n->connect_node(bridge{this});
     } catch (...) {
       // connecting the subtree threw: this operation state never comes into existence
+      tb.release();  // (a constructor below may already have asked for the stop token)
       usim::np_scope np;
       tap->destroyed = true;
       tap->destroy_seq = seq();
@@ -310,6 +311,7 @@ struct any_op final : rcv_iface {
       t->destroy_seq = seq();
     }
     delete inner;
+    tb.release();  // connected but never started (a sibling's connect threw)
   }
   void start() noexcept {
     {
